@@ -463,6 +463,49 @@ theorem progAgreeB_sound (gs : Grids) (p : List Stmt) :
     rw [ho, hn] at h2
     exact h2
 
+theorem shapedAgreeB_of_noShaped (P Q : Policy) (gs : Grids) (lo ln : Nat → Except Err Val) (e : Expr)
+    (h : NoShaped e) : shapedAgreeB P Q gs lo ln e = true := by
+  induction e with
+  | shaped e ih => exact absurd h (by simp [NoShaped])
+  | bin op l r ihl ihr => simp [shapedAgreeB, ihl h.1, ihr h.2]
+  | mask e m ihe ihm => simp [shapedAgreeB, ihe h.1, ihm h.2]
+  | app2 f a b iha ihb => simp [shapedAgreeB, iha h.1, ihb h.2]
+  | app3 f a b c iha ihb ihc => simp [shapedAgreeB, iha h.1, ihb h.2.1, ihc h.2.2]
+  | var x => rfl
+  | lit a => rfl
+  | scal c k => rfl
+  | field a g => rfl
+  | un u e ih => simpa [shapedAgreeB] using ih h
+  | red r ax e ih => simpa [shapedAgreeB] using ih h
+  | idx i e ih => simpa [shapedAgreeB] using ih h
+  | reshape s e ih => simpa [shapedAgreeB] using ih h
+  | ravel e ih => simpa [shapedAgreeB] using ih h
+  | copy e ih => simpa [shapedAgreeB] using ih h
+  | pickle e ih => simpa [shapedAgreeB] using ih h
+  | app1 f e ih => simpa [shapedAgreeB] using ih h
+
+theorem progAgreeB_of_noShaped (gs : Grids) (p : List Stmt) (h : ∀ st ∈ p, StmtNoShaped st) :
+    ∀ so sn, progAgreeB gs so sn p = true := by
+  induction p with
+  | nil => intro so sn; rfl
+  | cons st rest ih =>
+    intro so sn
+    have hst : stmtAgreeB gs so sn st = true := by
+      have h0 := h st (by simp)
+      cases st with
+      | assign x e => exact shapedAgreeB_of_noShaped _ _ _ _ _ e h0
+      | alias y x => rfl
+      | update x u args =>
+        simp only [stmtAgreeB, List.all_eq_true]
+        exact fun e he => shapedAgreeB_of_noShaped _ _ _ _ _ e (h0 e he)
+    simp only [progAgreeB, hst, Bool.true_and]
+    cases stepO gs so st with
+    | error e => rfl
+    | ok so' =>
+      cases stepN gs sn st with
+      | error e => rfl
+      | ok sn' => exact ih (fun s hs => h s (by simp [hs])) so' sn'
+
 theorem progDisagreeAt_none_iff (gs : Grids) (p : List Stmt) :
     ∀ so sn i, progDisagreeAt gs so sn p i = none ↔ progAgreeB gs so sn p = true := by
   induction p with
